@@ -389,6 +389,13 @@ func TestVerifC01(t *testing.T) {
 		bt = append(bt, aTx{Sig: sig, Accts: []int{1}, Loaded: []int{}, Nometa: ts.NoMeta, Dframes: ts.DataFrames, Mframes: ts.MetaFrames})
 		specTxs = append(specTxs, ts)
 	}
+	// ... and objects of 64 KiB and more (still a three-byte section length; sizes that need the third byte of a 24-bit size field)
+	for _, pad := range []int{65400, 70000, 200000} {
+		sig++
+		ts := fixture.TxSpec{SigID: sig, Accounts: []int{1}, DataFrames: 1, MetaFrames: 1, NoMeta: true, Pad: pad}
+		bt = append(bt, aTx{Sig: sig, Accts: []int{1}, Loaded: []int{}, Nometa: true, Dframes: 1, Mframes: 1})
+		specTxs = append(specTxs, ts)
+	}
 	if len(bt) > 0 {
 		ep := aEpoch{Epoch: 1, Blocks: []aBlock{{Slot: 432001, Parent: 432000, Blocktime: 1600000001, Height: -1, Entries: []aEntry{{Txs: bt}}}}}
 		spec := fixture.EpochSpec{Epoch: 1, Seed: seed, Fanout: 2, Trailer: true, Blocks: []fixture.BlockSpec{{Slot: 432001, Parent: 432000, Blocktime: 1600000001, Entries: []fixture.EntrySpec{{Txs: specTxs}}}}}
@@ -403,6 +410,17 @@ func TestVerifC01(t *testing.T) {
 			{Slot: 432003, Parent: 432001, Blocktime: btime, Height: -1, Entries: []aEntry{{Txs: []aTx{{Sig: 2, Accts: []int{1}, Loaded: []int{}, Dframes: 1, Mframes: 1}}}}}}}
 		n++
 		c01run(t, out, ep, ep.spec(seed+int64(k), 2), n, "blocktime-out-of-32-bit-range")
+	}
+	// directed: `index all` interrupted (its context is cancelled, as SIGINT / SIGTERM do): it may fail, it must not report
+	// success and leave indexes that miss entries
+	{
+		ep := aEpoch{Epoch: 1, Blocks: []aBlock{
+			{Slot: 432001, Parent: 432000, Blocktime: 1600000001, Height: -1, Entries: []aEntry{{Txs: []aTx{{Sig: 1, Accts: []int{1}, Loaded: []int{}, Dframes: 1, Mframes: 1}, {Sig: 2, Accts: []int{2}, Loaded: []int{}, Dframes: 2, Mframes: 3}}}}},
+			{Slot: 432004, Parent: 432001, Blocktime: 1600000004, Height: -1, Entries: []aEntry{{Txs: []aTx{{Sig: 3, Accts: []int{1}, Loaded: []int{}, Dframes: 1, Mframes: 1}}}}}}}
+		n++
+		vChildEnv = []string{"VERIF_CHILD_CANCEL=1"}
+		c01run(t, out, ep, ep.spec(seed+31, 2), n, "interrupted-index-run")
+		vChildEnv = nil
 	}
 	// directed: many first signatures in one two-byte prefix next to a populated prefix, and item counts
 	// around the 10 000-entries-per-bucket boundary of the compact indexes
